@@ -99,7 +99,7 @@ def gen_history(r, maxops, thorough):
         elif k < 0.44 and bs and (hs or cs):
             b = r.choice(bs)
             fail = r.random() < 0.25
-            if many and sim.nopen < 350:
+            if many and sim.nopen < 100:
                 many = False
                 n = r.choice([11, 12, 20, 64, 253, 253] + ([254] if thorough else []))
                 shape = r.choice("vn")      # one array: a signature holds at most 255 characters
@@ -144,9 +144,12 @@ def gen_history(r, maxops, thorough):
         elif k < 0.62 and bs:
             b = r.choice(bs)
             n = sum(1 for o in sim.bods[b]["fds"] if not sim.taken[o])
+            if n > 20 and sim.nopen + n > 800:
+                continue                    # stay well below common RLIMIT_NOFILE values
             push("S%d" % b)
             if n <= 253:
                 sim.wire.append({"n": n, "slots": sim.bods[b]["slots"]})
+                sim.nopen += n              # the peer's in-flight copies
         elif k < 0.65 and cs:
             n = r.choice([0, 1, 1, 2, 3])
             sel = [r.choice(cs) for _ in range(n)]
@@ -154,10 +157,12 @@ def gen_history(r, maxops, thorough):
             idxs = [r.choice([0, 0, 1, 2, n, n + 1, 5, 4294967295]) if r.random() < 0.5 else r.randrange(0, max(1, n)) for _ in range(ni)]
             push("I%s:%s" % (",".join(map(str, sel)) or "-", ",".join(map(str, idxs)) or "-"))
             sim.wire.append({"n": n, "slots": ni})
+            sim.nopen += n
         elif k < 0.74 and sim.wire:
             wv = sim.wire.pop(0)
             push("V")
             sim.bods.append({"fds": [sim.new_obj() for _ in range(wv["n"])], "slots": wv["slots"]})
+            sim.nopen -= wv["n"]            # the peer closes its copies
         elif k < 0.79 and bs:
             b = r.choice(bs)
             n = len(sim.bods[b]["fds"])
